@@ -19,6 +19,8 @@ def is_sym(v):
 
 def eqv(a, b):
     """Equality usable for proxies and plain values; returns SBool or bool."""
+    if isinstance(a, float) and isinstance(b, float) and a != a and b != b:
+        return True  # missing-value sentinel numpy.nan: the library's own is_equal is "NaN insensitive"
     r = a == b
     if isinstance(r, Sym):
         return r
